@@ -237,4 +237,21 @@ META["C08"] = {
     "assumptions": ["class models and expressions bounded as stated"],
 }
 
+META["C09"] = {
+    "level": "exploration",
+    "level_text": "Bounded contract check on the real code: every subset of callback placements "
+    "(class, method, function processor; parameterized property) x 15 operator lambdas with call "
+    "sites at depth 0..2; the expected invocation sequence is computed by an independent walk of "
+    "the lambda over the class model; checked: invocation log == matching sites with class before "
+    "method, nothing else fires, each callback's MetaData is on the args[0] chain below the new "
+    "operator in order and none stays in the lambda, returned rewrites are emitted, [param] "
+    "subscripts are removed and parameters arrive by value.",
+    "level_note": "Bounded stand-in; the ghost-trace contracts of DESIGN §4 C09 are not under "
+    "engine P in this build.",
+    "technique": "bounded contract check of the callback-trace / metadata-placement contracts on generated class models (labelled stand-in)",
+    "p_keys": False,
+    "explanation": "bounded only",
+    "assumptions": ["placements x lambdas bounded as stated"],
+}
+
 NOT_APPLICABLE = {}
